@@ -2,13 +2,14 @@
    Statements only.  The model (model/M_transform.v, model/M_height.v) defines for each transform
    the forward map, the inverse and the log|det J| it must report = sum of ln of the diagonal of its
    (triangular) Jacobian.  Proved here: inverses; the diagonal entries (derivatives, Coquelicot);
-   the triangular structure (which inputs an output depends on).  det(triangular) = product of the
-   diagonal is the classical fact (mathcomp: det_trig) connecting them; it is not re-proved on the
-   list representation used here and is named in the trusted base. *)
+   the triangular structure (which inputs an output depends on); and — proof/P_det_def.v, P_tridet.v,
+   P_tridet_mc.v, P_transform_det.v, P_height_det.v — that the reported value IS ln |det J| of the full Jacobian
+   matrix of partial derivatives, the determinant being the Laplace expansion [ldet] (equal to mathcomp's \det on
+   every commutative ring: ldet_is_det in proof/P_tridet_mc.v, closed under the global context). *)
 From Coq Require Import QArith Reals List.
 From Coquelicot Require Import Coquelicot.
 Import ListNotations.
-From TT Require Import Num NumR Tree M_transform M_height P_transform P_height P_height_jac.
+From TT Require Import Num NumR Tree M_transform M_height P_transform P_height P_height_jac P_height_inv P_det_def P_tridet P_transform_det P_height_det.
 Open Scope R_scope.
 
 (* ---- inverse after forward returns the input ---- *)
@@ -89,6 +90,58 @@ Theorem C07_ratio_report : forall times t hp ht,
 Proof. exact ratio_logdet_is_sum_ln_diag. Qed.
 Print Assumptions C07_ratio_report.
 (* increment transform: inverse (C06_diff_roundtrip) and unit diagonal: h_i = max(children) + x_i *)
+
+(* ---- the reports ARE log |det| of the full Jacobian matrix ---- *)
+(* determinant of a triangular matrix (list of rows, Laplace expansion along the first row) *)
+Theorem C07_det_lower_triangular : forall n m,
+  (forall i j, (i < j < n)%nat -> entry NumR m i j = 0) -> ldet NumR n m = rprod (diagonal n m).
+Proof. exact ldet_lower_triangular. Qed.
+Print Assumptions C07_det_lower_triangular.
+Theorem C07_det_upper_triangular : forall n m,
+  (forall i j, (j < i < n)%nat -> entry NumR m i j = 0) -> ldet NumR n m = rprod (diagonal n m).
+Proof. exact ldet_upper_triangular. Qed.
+Print Assumptions C07_det_upper_triangular.
+(* every partial derivative of a cumulative map y_i = g(x_0 + .. + x_i): g'(c_i) on and below the diagonal, 0 above *)
+Theorem C07_cumulative_partials : forall (g g' : R -> R), (forall z, is_derive g z (g' z)) ->
+  forall x i j, (i < length x)%nat -> (j < length x)%nat ->
+  is_derive (fun t => nth i (cumF g (upd x j t)) 0) (nth j x 0)
+            (if (j <=? i)%nat then g' (nth i (cumsum NumR x) 0) else 0).
+Proof. exact cumulative_partial. Qed.
+Print Assumptions C07_cumulative_partials.
+(* CumSumTransform, CumSumExpTransform, CumSumSoftPlusTransform: report = ln |det (matrix of partials)| *)
+Theorem C07_cumsum_report_is_logabsdet : forall x,
+  cumsum_logdet NumR x = ln (Rabs (ldet NumR (length x) (jacobian (cumsum_fwd NumR) x))).
+Proof. exact cumsum_logdet_is_logabsdet. Qed.
+Print Assumptions C07_cumsum_report_is_logabsdet.
+Theorem C07_cumsumexp_report_is_logabsdet : forall x,
+  cumsumexp_logdet NumR x = ln (Rabs (ldet NumR (length x) (jacobian (cumsumexp_fwd NumR) x))).
+Proof. exact cumsumexp_logdet_is_logabsdet. Qed.
+Print Assumptions C07_cumsumexp_report_is_logabsdet.
+Theorem C07_cumsumsoftplus_report_is_logabsdet : forall x,
+  cumsumsoftplus_logdet NumR x = ln (Rabs (ldet NumR (length x) (jacobian (cumsumsoftplus_fwd NumR) x))).
+Proof. exact cumsumsoftplus_logdet_is_logabsdet. Qed.
+Print Assumptions C07_cumsumsoftplus_report_is_logabsdet.
+(* ratio node-height transform, EVERY topology, on the parameter domain (root above its bound, positive ratios):
+   the value the code reports is ln |det| of the matrix of partial derivatives of the internal heights with respect
+   to the parameters (rows and columns in pre-order; a simultaneous reordering of both does not change |det|) *)
+Theorem C07_ratio_report_is_logabsdet : forall n times x i l r,
+  let t := INode i l r in
+  NoDup (ipre t) -> (forall k, In k (ipre t) -> (n <= k < n + length x)%nat) ->
+  bound NumR times t < x_of NumR n x i -> (forall j, In j (ipre l ++ ipre r) -> 0 < x_of NumR n x j) ->
+  ratio_logdet NumR times None t (ratio_fwd NumR n times x None t)
+  = ln (Rabs (ldet NumR (length (ipre t)) (ratio_jacobian n times x t))).
+Proof. exact ratio_logdet_is_logabsdet. Qed.
+Print Assumptions C07_ratio_report_is_logabsdet.
+(* ... with the numbering setup_indexes produces *)
+Theorem C07_ratio_report_is_logabsdet_indexed : forall times tr x i l r,
+  index_tree tr = INode i l r -> length x = (leaves tr - 1)%nat ->
+  bound NumR times (INode i l r) < x_of NumR (leaves tr) x i ->
+  (forall j, In j (ipre l ++ ipre r) -> 0 < x_of NumR (leaves tr) x j) ->
+  ratio_logdet NumR times None (INode i l r) (ratio_fwd NumR (leaves tr) times x None (INode i l r))
+  = ln (Rabs (ldet NumR (length (ipre (INode i l r))) (ratio_jacobian (leaves tr) times x (INode i l r)))).
+Proof. exact ratio_logdet_is_logabsdet_indexed. Qed.
+Print Assumptions C07_ratio_report_is_logabsdet_indexed.
+Example C07_ratio_det_example := ratio_det_example.
 
 (* non-vacuity *)
 Example C07_example : cumsum_inv NumR (cumsum_fwd NumR [1; 2; 3]) = [1; 2; 3].
